@@ -38,7 +38,8 @@ def make_stream(r, nframes, maxlen, shared, start_ssn, start_rsn):
     frames_, parts = [], []
     for i in range(nframes):
         last = i == nframes - 1
-        pl = payloads(r, r.choice([0, 1, 2, 3, 5, 8, maxlen]) if maxlen > 8 else r.randrange(0, maxlen + 1))
+        # 115..117 / 372: payload sizes for which a byte of the frame header (the length byte) equals the flag 0x7E
+        pl = payloads(r, maxlen if maxlen in (115, 116, 117, 372) else r.choice([0, 1, 2, 3, 5, 8, maxlen]) if maxlen > 8 else r.randrange(0, maxlen + 1))
         a = [3, H.CLIENT, H.SERVER, pl, not last, True, (start_ssn + i) % 8, start_rsn]
         fb = build(a).to_bytes()
         frames_.append((a, fb))
@@ -85,7 +86,7 @@ def run(ctx):
     # response phase
     plan = [(1, 6, False), (1, 8, False), (2, 4, False), (2, 4, True), (3, 3, True), (3, 2, False)]
     plan += [(r.randrange(1, 9), r.choice([3, 8, 60, 200, 2030]), r.random() < 0.5) for _ in range(ctx.scale(40, 240))]
-    plan += [(1, 2030, False), (8, 128, True), (8, 128, False)]
+    plan += [(1, 2030, False), (8, 128, True), (8, 128, False), (1, 116, False), (2, 116, True), (2, 116, False), (1, 115, False), (1, 117, False), (1, 372, False)]
     for nframes, maxlen, shared in plan:
         cs, cr = r.randrange(8), r.randrange(8)
         link = [2, cs, cr, cr, cs]          # AWAITING_RESPONSE; client_ssn=cs, client_rsn=cr, server_ssn=cr, server_rsn=cs
